@@ -14,6 +14,7 @@ Go sources modelled (istio/istio):
   pkg/spiffe/spiffe.go                                       genSpiffeURI, sanitizeTrustDomain
   net (Go 1.26)                                              SplitHostPort
   net/netip (Go 1.26)                                        ParsePrefix, Prefix.Contains, Addr.IsLoopback, MustParseAddr
+  pkg/spiffe/spiffe.go                                       PeerCertVerifier (AddMapping, VerifyPeerCert), RetrieveSpiffeBundleRootCerts (entry filter)
 
 Outside the model (inputs): token cryptography (the OIDC verifier's verdict and the claims it
 releases; the TokenReview answer of the API server), the third-party XFCC header grammar
@@ -419,6 +420,52 @@ def poolOf (pools : List (String × List String)) (td : String) : Option (List S
   if pools.any (fun p => p.1 == td) then some ((pools.filter (fun p => p.1 == td)).flatMap (·.2)) else none
 
 def generalPool (pools : List (String × List String)) : List String := pools.flatMap (·.2)
+
+/-! ### Federated trust domains: SPIFFE bundle endpoints (`RetrieveSpiffeBundleRootCerts`)
+
+A bundle document is a JWK set.  Only entries with `use = "x509-svid"` are X.509 trust roots, and each must
+carry exactly one certificate (`x5c`); `jwt-svid` entries (keys for validating JWT-SVIDs) and entries
+without a use are skipped whatever they carry.  HTTP / TLS / JSON decoding are outside the model. -/
+
+/-- one JWK entry of a bundle document: its `use` and the certificates (by name) of its `x5c` -/
+structure BundleKey where
+  use   : String
+  certs : List String
+  deriving DecidableEq, Repr
+
+def x509SVID : String := "x509-svid"
+
+/-- the loop over `doc.Keys`; `none` = error -/
+def bundleRootsLoop : List BundleKey → Option (List String)
+  | [] => some []
+  | k :: ks =>
+    if k.use = x509SVID then
+      match k.certs with
+      | [c] => (bundleRootsLoop ks).map (c :: ·)
+      | _ => none
+    else bundleRootsLoop ks
+
+/-- the roots one bundle document contributes; a bundle without any X.509-SVID entry is an error -/
+def bundleRoots (keys : List BundleKey) : Option (List String) :=
+  match bundleRootsLoop keys with
+  | some [] => none
+  | r => r
+
+/-- how the roots of a trust domain are configured: listed, or fetched from its bundle endpoint -/
+inductive PoolSrc
+  | roots (l : List String)
+  | bundle (keys : List BundleKey)
+  deriving DecidableEq, Repr
+
+/-- `RetrieveSpiffeBundleRootCerts` over every endpoint, then `AddMappings`; `none`: a bundle was
+    refused (istiod's `createPeerCertVerifier` fails, the server does not come up) -/
+def resolvePools : List (String × PoolSrc) → Option (List (String × List String))
+  | [] => some []
+  | (td, .roots l) :: rest => (resolvePools rest).map ((td, l) :: ·)
+  | (td, .bundle keys) :: rest =>
+    match bundleRoots keys with
+    | none => none
+    | some l => (resolvePools rest).map ((td, l) :: ·)
 
 /-- `url.URL.String()` of a parsed URI SAN as far as it matters here: the scheme (up to the first
     ':') comes back in lower case; nothing else of the URIs the harness generates changes. -/
